@@ -226,18 +226,3 @@ func sortedKeys(m map[string]bool) []string {
 func (c *Ctx) thoroughExtras(which map[string]bool) {}
 
 func mainSelftest(args []string) int { return 2 }
-
-func init() {
-	PropRules["C08"] = []string{"TOK-1", "TOK-2", "TOK-3", "TOK-4", "TOK-5", "TOK-6", "TOK-8"}
-	PropRules["C01"] = []string{"ORD-1", "ORD-2", "ORD-3", "ORD-5"}
-	PropRules["C04"] = []string{"ORD-4", "ORD-6", "ORD-8"}
-	PropRules["C05"] = []string{"OWN-1", "OWN-2", "OWN-3", "OWN-4", "OWN-5", "OWN-6", "OWN-7"}
-	PropRules["C14"] = []string{"ERR-1", "ERR-2", "ERR-3", "ERR-4", "ERR-5", "ERR-6"}
-	PropRules["C11"] = []string{"TOK-9", "TOK-10", "TOK-11", "TOK-12", "TOK-7", "PAN-2", "PAN-4"}
-	PropRules["C18"] = []string{"ORD-7", "ORD-9", "ORD-13", "ORD-14"}
-	PropRules["C06"] = []string{"ORD-10", "ORD-11", "ORD-12"}
-	PropRules["C09"] = []string{"COD-5", "COD-6", "COD-7"}
-	PropRules["C15"] = []string{"COD-8", "COD-9", "COD-10", "COD-11"}
-	PropRules["C16"] = []string{"ADP-1", "ADP-2", "ADP-3", "ADP-4", "ADP-5", "ADP-6", "ADP-7", "ADP-8"}
-	PropRules["C13"] = []string{"COD-1", "COD-12", "COD-2", "COD-3", "COD-4"}
-}
